@@ -53,7 +53,7 @@ class C13(Spec):
 
     def batches(self, rng, tier):
         cases = [Case("unitable", [lo, min(lo + 0x10000, 0x110000)], {"unitable": lo}) for lo in range(0, 0x110000, 0x10000)]
-        cases += self.gen_cases(rng, 4000 if tier == "quick" else 120000)
+        cases += self.gen_cases(rng, 3000 if tier == "quick" else 120000)
         if tier == "thorough":
             alpha = ["a", "b", " ", "\n", gen.py_apply("a", "1"), "\xa0"]
             for n in range(0, 7):
